@@ -30,8 +30,7 @@ META = {
                   "all two-updater interleavings replayed on real containers through a cooperative-scheduling proxy transport"),
     "level_text": ("Sequential compare-and-swap laws of set_if_equals / add_if_new / remove_if_equals proved for every store, "
                    "every name/expected value and every operation sequence on one container (cache-coherence invariant); "
-                   "refinement of an atomic CAS specification; machine-checked refutations: remove_if_equals with a cold "
-                   "packed cache reports success but leaves a packed ref, two updaters lose an update under a 4-step schedule "
+                   "refinement of an atomic CAS specification; machine-checked refutations: two updaters lose an update under a 4-step schedule "
                    "(no lock file), a stale packed cache breaks CAS even for serial updaters; guarded versions proved. "
                    "Hand model tied to the code by an exhaustive case table, random sequences and exhaustive interleavings."),
     "level_note": ("Trusted: Coq kernel, vm_compute, the hand model's correspondence (exhaustive on the case table, sampled "
@@ -439,38 +438,9 @@ def _windows_overlap(trace):
     return not (a1 < b0 or b1 < a0)
 
 
-def _cold_remove_seq(inp, obs):
-    f = _seq_failures(inp, obs)
-    if not f:
-        return False
-    i = f[0][0]
-    o = inp["ops"][i]
-    res, disk, cache = obs["t"][i]
-    before = obs["t"][i - 1][1] if i else [_loose0(inp), _packed0(inp)]
-    if not (o["op"] == "remove" and res is True and cache is None and before[1][o["n"]] is not None):
-        return False
-    exp_lo = list(before[0])
-    exp_lo[o["n"]] = None
-    return disk == [exp_lo, before[1]]          # only deviation: the packed entry survived
-
-
-def _loose0(inp):
-    lo = dict((n, _pyval(v)) for n, v in inp["loose"])
-    return [lo.get(i) for i in range(len(ALLNAMES))]
-
-
 def _packed0(inp):
     pk = dict(inp["packed"])
     return [pk.get(i) for i in range(len(ALLNAMES))]
-
-
-def _cold_remove_conc(inp, obs):
-    for tid in (0, 1):
-        o = inp["ops"][tid]
-        if (o["op"] == "remove" and obs["t"][tid] is True and obs["t"][3 + tid] is None
-                and _packed0(inp)[o["n"]] is not None and obs["t"][2][1][o["n"]] is not None):
-            return True
-    return False
 
 
 def _target(inp, o):
@@ -484,11 +454,8 @@ def _target(inp, o):
 def finding_matches(fid, inp, obs, why):
     if isinstance(obs, Err):
         return False
-    if fid == "C37-remove-packed-cold-cache":
-        # remove_if_equals reports success but _remove_packed_ref returned early because
-        # self._packed_refs had never been loaded: the packed entry (and so the ref) survives
-        return _cold_remove_seq(inp, obs) if inp["kind"] == "seq" else _cold_remove_conc(inp, obs)
-    if inp["kind"] != "conc" or _cold_remove_conc(inp, obs):
+    # C37-remove-packed-cold-cache was repaired by 80b730a: nothing is excused for it any more
+    if inp["kind"] != "conc":
         return False
     a, b = inp["ops"]
     pk0 = _packed0(inp)
@@ -531,6 +498,7 @@ RESURRECT = {"kind": "conc", "loose": [], "packed": [[X, 1], [Y, 2]], "warm": [T
              "ops": [{"op": "remove", "n": X, "old": ["sha", 1]},
                      {"op": "remove", "n": Y, "old": ["sha", 2]}],
              "sched": [0, 0, 1, 1, 0, 1] + PAD}
+# regression witnesses of the repaired cold-cache defect (80b730a): must now satisfy the specification
 COLD = {"kind": "seq", "loose": [], "packed": [[X, 1]], "warm": False,
         "ops": [{"op": "remove", "n": X, "old": None}]}
 COLD2 = {"kind": "seq", "loose": [[X, ["sha", 1]]], "packed": [[X, 2]], "warm": False,
@@ -639,7 +607,7 @@ def _conc_table():
 
 def cases(rng, tier):
     yield from _table()
-    for _ in range(400 if tier == "quick" else 6000):
+    for _ in range(300 if tier == "quick" else 6000):
         lo, pa = _rand_store(rng)
         yield {"kind": "seq", "loose": lo, "packed": pa, "warm": rng.random() < 0.5,
                "ops": [_rand_op(rng) for _ in range(rng.randint(2, 5))]}
@@ -648,9 +616,9 @@ def cases(rng, tier):
         # every non-overlapping schedule of the table, and a sample of the overlapping ones
         serial = [c for c in allc if c["sched"][:6] in ([0, 0, 0, 1, 1, 1], [1, 1, 1, 0, 0, 0])]
         other = [c for c in allc if c["sched"][:6] not in ([0, 0, 0, 1, 1, 1], [1, 1, 1, 0, 0, 0])]
-        allc = serial + rng.sample(other, 500)
+        allc = serial + rng.sample(other, 300)
     yield from allc
-    for _ in range(100 if tier == "quick" else 1500):
+    for _ in range(60 if tier == "quick" else 1500):
         lo, pa = _rand_store(rng)
         yield {"kind": "conc", "loose": lo, "packed": pa, "warm": [rng.random() < 0.5, rng.random() < 0.5],
                "ops": [_rand_op(rng), _rand_op(rng)],
